@@ -38,6 +38,11 @@ def cases(tier, seed):
     for n in (998, 1000, 1002, 1200):
         for ws in ('temp', 'same', 'alias', 'failing'):
             out.append({'k': 'big', 'size': n, 'ws': ws})
+    # watches that bring in many variables the frame collection did not reach (sizes around every default limit of the collector:
+    # collection size 10, watch variables 100, variables 1000), a second watch naming something inside the first one's value
+    for m in (9, 10, 11, 99, 100, 101, 150, 500, 998, 1001):
+        for shape in ('dict', 'lists', 'obj'):
+            out.append({'k': 'bigwatch', 'size': m, 'shape': shape})
     return out
 
 
@@ -85,7 +90,40 @@ def run_big(ctx, desc):
     ctx.outcome(('big', [w.error for w in snap.watches], ws))
 
 
+def run_bigwatch(ctx, desc):
+    m, shape = desc['size'], desc['shape']
+    if shape == 'dict':
+        big = {'key%d' % i: 200000 + i for i in range(m)}
+        inner = "['key%d']" % (m - 1)
+    elif shape == 'lists':
+        big = {'key%d' % i: [300000 + i] for i in range(m // 2)}
+        inner = "['key%d']" % (m // 2 - 1)
+    else:
+        big = graphs.Obj()
+        for i in range(m):
+            setattr(big, 'at%d' % i, 400000 + i)
+        inner = '.at%d' % (m - 1)
+    loc = {'d': [[[[[big]]]]], 'z': 7}      # below MAX_VAR_DEPTH: the frame collection does not reach `big`
+    path = 'd[0][0][0][0][0]'
+    for watches in ([path], [path, path + inner], [path + inner, path]):
+        agent, run, info = snapref.take(loc, [{'watches': watches}])
+        ctx.case()
+        if run.escaped or len(agent.snapshots) != 1:
+            ctx.violation('C07/no-snapshot/bigwatch', f'watch bringing in {m} variables: snapshots={len(agent.snapshots)}', desc)
+            return
+        snap = agent.snapshots[0]
+        ctx.nt(('bigwatch', m, shape, len(watches)))
+        probs = snapref.closure_problems(snap)
+        if probs:
+            ctx.violation(f'C07/dangling/{probs[0][0]}/large-watch-value', f'watches {watches} on a {shape} of {m} entries the frame collection did not reach '
+                          f'(table has {len(snap.var_lookup)} entries): unresolved references {probs[:2]}', desc)
+            return
+        ctx.outcome(('bigwatch', shape, m > 100, [w.error for w in snap.watches]))
+
+
 def run_case(ctx, desc):
+    if desc['k'] == 'bigwatch':
+        return run_bigwatch(ctx, desc)
     if desc['k'] == 'one':
         return check_one(ctx, desc)
     if desc['k'] == 'big':
